@@ -1,6 +1,7 @@
 package vaa
 
 import (
+	"sync/atomic"
 	"time"
 
 	"github.com/alephium/wormhole-fork/node/pkg/zzverif"
@@ -34,12 +35,17 @@ func VerifC06_Verify() {
 		nk = 4 // distinct honest keys that sign; the remaining list entries are further distinct addresses
 	}
 	for i := range addrs {
-		if i < nk {
-			addrs[i] = common.Address(zzverif.AddrOf(i))
-		} else {
-			// guardians that never sign in this scenario: concrete, pairwise distinct addresses
-			addrs[i] = common.Address{0: 0xA0, 1: byte(i >> 8), 2: byte(i), 19: 0x01}
-		}
+		// guardians that never sign in this scenario: concrete, pairwise distinct addresses
+		addrs[i] = common.Address{0: 0xA0, 1: byte(i >> 8), 2: byte(i), 19: 0x01}
+	}
+	// the keys that sign: positions 0..3, in long lists 0, 1 and the last two positions (so that valid signatures exist at
+	// both ends of the index range: 17, 18 of 19 and 253, 254 of 255)
+	keyPos := []int{0, 1, 2, 3}
+	if n > 4 {
+		keyPos = []int{0, 1, n - 2, n - 1}
+	}
+	for i := 0; i < nk; i++ {
+		addrs[keyPos[i]] = common.Address(zzverif.AddrOf(i))
 	}
 	if dup == 1 {
 		zzverif.Assume(n >= 2)
@@ -178,4 +184,59 @@ func VerifC06_MutateInPlace() {
 		zzverif.Reach("unchanged")
 		zzverif.Assert(got, "same-body-still-verifies")
 	}
+}
+
+// C06: verification of one VAA is not disturbed by verification (or digest computation) of another VAA going on at the
+// same time: a valid VAA verifies and a VAA with a tampered body carrying the same signature is rejected, whatever the
+// schedule. Symbolic build: two goroutines, pre-emption before every mutex / channel / sync.Pool operation and before
+// the return of any function that hands an object back to a pool. Native build: a stress loop.
+func VerifC06_Concurrent() {
+	a := verifBodyVAA()
+	d := a.SigningMsg()
+	s := &Signature{Index: 0}
+	copy(s.Signature[:], zzverif.SignBy(0, d[:]))
+	a.Signatures = []*Signature{s}
+	b := *a
+	b.Sequence = zzverif.U64("seq2")
+	zzverif.Assume(b.Sequence != a.Sequence)
+	addrs := []common.Address{common.Address(zzverif.AddrOf(0))}
+	_ = b.SigningMsg()
+	zzverif.AssumeCollisionFree() // over the pre-images hashed so far: the two bodies and the two inner digests
+	rounds := 1
+	if !zzverif.Symbolic() {
+		rounds = 20000
+	}
+	for r := 0; r < rounds; r++ {
+		var ra, rb bool
+		var doneA, doneB atomic.Bool
+		start := make(chan struct{})
+		zzverif.Preemptive(true)
+		go func() {
+			if !zzverif.Symbolic() {
+				<-start
+			}
+			ra = a.VerifySignatures(addrs)
+			doneA.Store(true)
+		}()
+		go func() {
+			if !zzverif.Symbolic() {
+				<-start
+			}
+			rb = b.VerifySignatures(addrs)
+			doneB.Store(true)
+		}()
+		if zzverif.Symbolic() {
+			zzverif.Settle()
+		} else {
+			close(start)
+			for w := 0; w < 4000 && !(doneA.Load() && doneB.Load()); w++ {
+				time.Sleep(50 * time.Microsecond)
+			}
+		}
+		zzverif.Preemptive(false)
+		zzverif.Assert(doneA.Load() && doneB.Load(), "both-verifications-return")
+		zzverif.Assert(ra, "valid-vaa-verifies-whatever-runs-concurrently")
+		zzverif.Assert(!rb, "tampered-vaa-rejected-whatever-runs-concurrently")
+	}
+	zzverif.Reach("end")
 }
